@@ -14,12 +14,14 @@ import (
 	"regexp"
 	"sort"
 	"strings"
+	"sync/atomic"
 	"time"
 
 	"github.com/fabiolb/fabio/auth"
 	"github.com/fabiolb/fabio/cert"
 	"github.com/fabiolb/fabio/config"
 	"github.com/fabiolb/fabio/logger"
+	"github.com/fabiolb/fabio/metrics"
 	"github.com/fabiolb/fabio/route"
 	"github.com/fabiolb/fabio/transport"
 )
@@ -88,10 +90,10 @@ func c15Value(r *rand.Rand, o c15Opt) string {
 	case "duration":
 		return choose(r, []string{"0s", "1s", "250ms", "1m30s", "2h", "1.5s", "100us", "-1s", "1h2m3s4ms", "0"})
 	case "float":
-		return choose(r, []string{"0", "0.5", "1", "1e-3", "-2.5", ".25", "1e3"})
+		return choose(r, []string{"0", "0.5", "1", "1e-3", "-2.5", ".25", "1e3", "NaN", "Inf", "-Inf", "+Inf", "infinity"})
 	case "value":
 		if strings.Contains(o.Name, "buckets") {
-			return choose(r, []string{"0.1,0.5,1", "1", " 0.005 , 0.01,2.5 ", "1e-3,1e3"})
+			return choose(r, []string{"0.1,0.5,1", "1", " 0.005 , 0.01,2.5 ", "1e-3,1e3", "2,1", "1,1", "1,2,+Inf", "NaN", "0.5,0.1,1"})
 		}
 		return choose(r, []string{"a", "a,b", " a , b ,, c ", "x-y,z_1", "passing,warning", "ünï,ö"})
 	default: // string
@@ -275,6 +277,13 @@ func c15Sources(c *ctx) {
 				if o.Name == "proxy.addr" {
 					xa = []string{"-proxy.cs=cs=cs1;type=file;cert=/tmp/c.pem;key=/tmp/k.pem"}
 				}
+				// options that only matter together with a metrics back end
+				switch o.Name {
+				case "metrics.interval":
+					xa = []string{"-metrics.target=" + choose(r, []string{"statsd_raw", "dogstatsd", "graphite", "stdout"}), "-metrics.statsd.addr=127.0.0.1:9", "-metrics.dogstatsd.addr=127.0.0.1:9", "-metrics.graphite.addr=127.0.0.1:9"}
+				case "metrics.prometheus.buckets":
+					xa = []string{"-metrics.target=prometheus"}
+				}
 				caseIdx := idx
 				idx++
 				if caseIdx < start {
@@ -378,6 +387,8 @@ func sha(s string) uint32 {
 }
 
 // c15Runnable pushes an accepted configuration through the constructors that consume it.
+var c15MetricSeq atomic.Int64
+
 func c15Runnable(c *ctx, o c15Opt, v string, cfg *config.Config) {
 	in := map[string]any{"Option": o.Name, "Value": v}
 	try := func(what string, f func()) {
@@ -410,6 +421,22 @@ func c15Runnable(c *ctx, o c15Opt, v string, cfg *config.Config) {
 		transport.NewTransport(&tls.Config{InsecureSkipVerify: true})
 	})
 	try("auth schemes", func() { auth.LoadAuthSchemes(cfg.Proxy.AuthSchemes) })
+	// fabio's first act with a configuration is to print it as JSON (and /api/config serves it)
+	if _, err := json.Marshal(cfg); err != nil {
+		c.R.Violate("c15:accepted-config-cannot-be-rendered", fmt.Sprintf("option %s=%q is accepted by config.Load but the configuration cannot be rendered as JSON (fabio panics at start-up): %v", o.Name, v, err), in)
+	}
+	if strings.HasPrefix(o.Name, "metrics.") && cfg.Metrics.Target != "" {
+		try("metrics provider", func() {
+			p, err := metrics.Initialize(&cfg.Metrics)
+			if err != nil || p == nil {
+				return
+			}
+			n := c15MetricSeq.Add(1) // fresh names: a second registration of one name is the harness's mistake, not fabio's
+			p.NewCounter(fmt.Sprintf("verif_counter_%d", n)).Add(1)
+			p.NewHistogram(fmt.Sprintf("verif_histogram_%d", n)).Observe(0.3)
+			p.NewHistogram(fmt.Sprintf("verif_histogram2_%d", n), "code").With("code", "200").Observe(1.5)
+		})
+	}
 	try("cert sources", func() {
 		for _, l := range cfg.Listen {
 			if l.CertSource.Name != "" && (l.CertSource.Type == "file" || l.CertSource.Type == "path" || l.CertSource.Type == "http") {
